@@ -305,3 +305,54 @@ Section ReplayFlush.
     - rewrite Hns. intros E1 E. rewrite E1 in E. injection E as <-. left. reflexivity.
   Qed.
 End ReplayFlush.
+
+(* ------------------------------------------------------------------ non-vacuity *)
+From GL Require Import Codec.BytesCmp Codec.BytesCmpProofs Codec.TblCrc Store.OpenPathProofs Store.OpenExample
+  Gen.Consts Gen.ConstsOk Gen.ConstsOkMem Gen.ConstsOkTbl Gen.Inst Gen.InstTbl Gen.InstMem Gen.InstRecord.
+
+(* goleveldb's default comparer returns byte strings *)
+Lemma bytewise_wf : cmp_wf bytewise.
+Proof.
+  split.
+  - induction a as [|x a IH]; intros b d Wa Wb; [discriminate|]. destruct b as [|y b]; [discriminate|].
+    cbn [sep bytewise bsep]. inversion Wa as [|? ? Wx Wa']; subst. inversion Wb as [|? ? Wy Wb']; subst.
+    destruct (x =? y).
+    + destruct (bsep a b) as [d'|] eqn:E; [|discriminate]. cbn [option_map]. intros H. injection H as <-.
+      constructor; [exact Wx|]. exact (IH b d' Wa' Wb' E).
+    + destruct ((x <? 255) && (x + 1 <? y)) eqn:E; [|discriminate]. intros H. injection H as <-.
+      constructor; [|constructor]. unfold wf_byte. apply andb_prop in E as [E _]. apply N.ltb_lt in E. lia.
+  - induction b as [|x b IH]; intros d W; [discriminate|]. cbn [succ bytewise bsucc]. inversion W as [|? ? Wx Wb']; subst.
+    destruct (x =? 255) eqn:E.
+    + destruct (bsucc b) as [d'|] eqn:E2; [|discriminate]. cbn [option_map]. intros H. injection H as <-.
+      constructor; [exact Wx|]. exact (IH d' Wb' E2).
+    + intros H. injection H as <-. constructor; [|constructor]. unfold wf_byte in *. apply N.eqb_neq in E. lia.
+Qed.
+
+(* the hypotheses of flush_memdb_table_ok hold together: the replay buffer after the synced batch of the example image
+   (Store/OpenExample.v ox_b1: Put a, Delete b at sequence numbers 1, 2), flushed as table 0 with the generated
+   constants, the real CRC-32C, 4 KiB blocks, restart interval 16, no compression, no filter *)
+Lemma fx_flush_hyps :
+  cmp_wf bytewise /\ (forall b, tbl_crc b < 2 ^ 32) /\
+  exists st st',
+    mem_ok bytewise kp mp (r_mdb st) /\ length (mem_pairs mp (r_mdb st)) = 2%nat /\
+    flush_side_ok kp tblp tbl_crc (fun x => 0 :: x) (fun x => Some (tl x)) false None 4096 16 bytewise None (fun _ _ _ => true) true
+      (Z.to_N (s_next (c_sess (r_c st)))) (mem_pairs mp (r_mdb st)) /\
+    flush_memdb rp kp mp tblp tbl_crc (fun x => 0 :: x) false None 4096 16 bytewise st = OOk st'.
+Proof.
+  split; [exact bytewise_wf|]. split; [intros b; unfold tbl_crc, crc_mask; apply N.mod_lt; discriminate|].
+  destruct (new_mem_ok kp ox_seek_val mp mp_ok bytewise) as (d0 & E0 & Hm0 & He0).
+  set (st0 := mkRJ (mkC [] None sess_new [] []) SR.sr_empty 1 d0 [] []).
+  assert (Hinv0 : OpenJournalProofs.mem_inv kp mp bytewise st0).
+  { split; [exact Hm0|]. split; [constructor|]. cbn [r_mdb st0]. intros x Hx. rewrite He0 in Hx. destruct Hx. }
+  assert (Hb : OpenJournalProofs.jb_ok kp ox_b1).
+  { pose proof ox_jb_ok as H. inversion H; subst. assumption. }
+  destruct (replay_record_written rp kp kp_ok ox_seek_val mp mp_ok tblp tbl_crc (fun x => 0 :: x) false None 4096 16 bytewise
+              bytewise_ok (ox_opts false) 1 ox_b1 st0 eq_refl Hb Hinv0) as (st1 & E1 & _ & _ & Hinv1 & _).
+  exists st1.
+  destruct (flush_memdb_total rp kp ox_seek_val mp mp_ok tblp tbl_crc (fun x => 0 :: x) false None 4096 16 bytewise st1
+              (proj1 Hinv1)) as (st2 & E2).
+  exists st2. split; [exact (proj1 Hinv1)|].
+  vm_compute in E0. injection E0 as <-. vm_compute in E1. injection E1 as <-.
+  split; [vm_compute; reflexivity|]. split; [|exact E2].
+  split; [vm_compute; reflexivity|left; reflexivity].
+Qed.
